@@ -36,6 +36,6 @@ a=s.index('| property | commit | subject | what failed |'); b=s.index('**Finding
 s=s[:a]+t1+'\n\n'+s[b:]
 a=s.index('| id | reason |',s.index('**Findings kept recorded')); b=s.index('**C20 notes.**')
 s=s[:a]+t2+'\n\n'+s[b:]
-s=re.sub(r'otherwise recorded\. \d+ defects are repaired','otherwise recorded. %d defects are repaired'%len(rows),s)
+s=re.sub(r'otherwise recorded\. \d+ defects are repaired by \d+','otherwise recorded. %d defects are repaired by %d'%(len(rows),len(set(r[1] for r in rows))),s)
 open('/verif/DESIGN.md','w').write(s)
 print(len(rows),'repairs;',len(k['findings']),'findings kept')
